@@ -142,6 +142,8 @@ class Env:
             run = env.cur
             run.mon.rec('start', ev=job.vf_ev, key=job.vf_key)
             kind = job.vf_outcome
+            if kind == 'stop':             # harness: end a free-running worker
+                raise S.Abort()
             if kind == 'silent':
                 raise exc.NothingToDo()
             if kind == 'template':
@@ -292,6 +294,97 @@ class Run:
     def cfg_key(self):
         return (tuple(tuple(t) for t in self.cfg['threads']),
                 tuple(tuple(o) for o in self.cfg['outcomes']))
+
+
+class FreeRun(Run):
+    """Complement: the same workload with real threads, the real blocking
+    queue.Queue.get() and no control - the LINE callback only yields the GIL
+    at random.  Not reproducible; it checks that the model of get() used by
+    the controlled runs does not hide anything.  Wall-clock waits only ever
+    make such a round inconclusive."""
+    class _NoSched:
+        def __init__(self):
+            self.trace = []
+            self.problems = []
+            self.preemptions = 0
+            self.choices = []
+
+    def __init__(self, env, cfg, seed):
+        self.env = env
+        self.cfg = cfg
+        self.mon = Monitor()
+        self.sched = self._NoSched()
+        self.berte = env.make_berte(self.mon, None)
+        self.worker_died = None
+        self.book = []
+        self.finished = 0
+        self.quiescent_state = None
+        self.windows = {}
+        self.rng = random.Random(seed)
+
+    def _yield(self):
+        u = self.rng.random()
+        if u < 0.5:
+            time.sleep(0)
+        elif u < 0.53:
+            time.sleep(0.00002)
+
+    def execute(self):
+        env, b = self.env, self.berte
+        env.cur = self
+        hooks = [threading.Thread(target=self._hook(ti, keys), daemon=True)
+                 for ti, keys in enumerate(self.cfg['threads'])]
+        worker = threading.Thread(target=self._free_worker, daemon=True)
+        S._free_hook[0] = self._yield
+        outcome = 'quiescent'
+        try:
+            worker.start()
+            for h in hooks:
+                h.start()
+            for h in hooks:
+                h.join(WATCHDOG_S)
+                if h.is_alive():
+                    outcome = 'watchdog'
+            # quiescence: every queued job done (Queue.join without timeout
+            # would hang the harness if the worker died)
+            t_end = time.time() + WATCHDOG_S
+            while outcome == 'quiescent' and worker.is_alive() and \
+                    (b.task_queue.unfinished_tasks or 'current job' in b.status
+                     or self.finished < sum(
+                         1 for e in self.mon.log if e['kind'] == 'deq')):
+                if time.time() > t_end:
+                    outcome = 'watchdog'
+                time.sleep(0.0002)
+            S._free_hook[0] = None
+            if outcome == 'quiescent':
+                self.quiescent_state = {
+                    'pending': [getattr(j, 'vf_ev', None)
+                                for j in list(b.task_queue.queue)],
+                    'marker': 'current job' in b.status,
+                    'worker_state': 'blocked',
+                    'worker_alive': worker.is_alive(),
+                    'tasks_done': [getattr(j, 'vf_ev', None)
+                                   for j in b.tasks_done],
+                    'hooks_finished': True}
+        finally:
+            S._free_hook[0] = None
+            if worker.is_alive():
+                stop = env.make_job(b, 0, None, 'stop')
+                stop.vf_key = None         # never counts as an evaluation
+                b.task_queue.put(stop)
+                worker.join(WATCHDOG_S)
+                if worker.is_alive():
+                    self.sched.problems.append('free-running worker did not '
+                                               'stop')
+                    outcome = 'watchdog'
+            env.cur = None
+        return outcome
+
+    def _free_worker(self):
+        try:
+            self._worker()
+        except S.Abort:
+            pass
 
 
 # ---------------------------------------------------------------------------
@@ -454,7 +547,10 @@ def nontrivial(run):
 def run_one(env, cfg, strategy, acc, source, count=True):
     """Execute one schedule, judge it, feed the accumulator.  Returns the Run
     (None when the run was inconclusive)."""
-    run = Run(env, cfg, strategy)
+    if source == 'free_running':
+        run = FreeRun(env, cfg, strategy)
+    else:
+        run = Run(env, cfg, strategy)
     outcome = run.execute()
     if outcome != 'quiescent':
         acc.count('inconclusive_runs')
@@ -476,7 +572,8 @@ def run_one(env, cfg, strategy, acc, source, count=True):
     acc.count('steps_total', len(run.sched.trace))
     acc.seen('shape', '%dx%d' % (len(cfg['threads']),
                                  max(len(t) for t in cfg['threads'])))
-    if nontrivial(run) or facts['suppressed'] or facts['refused']:
+    if source != 'free_running' and (
+            nontrivial(run) or facts['suppressed'] or facts['refused']):
         acc.nontrivial(run.trace_hash())
     for mech, text in viol:
         acc.violation(mech, '%s | workload threads=%r outcomes=%r | %d '
@@ -533,10 +630,12 @@ def make_cfg(assign, pair, rot):
 def dfs_items(tier):
     """(nthreads, nevents, preemption bound, key pair index)."""
     if tier == 'quick':
-        return [(2, 2, 1, 0)]
+        return [(2, 2, 1, 0), (2, 2, 1, 1), (2, 2, 1, 2),
+                (3, 1, 1, 0), (3, 1, 1, 1), (3, 1, 1, 2),
+                (3, 2, 1, 0)]
     return [(2, 2, 2, 0), (2, 2, 2, 1), (2, 2, 2, 2),
             (3, 1, 2, 0), (3, 1, 2, 1), (3, 1, 2, 2),
-            (3, 2, 1, 0)]
+            (3, 2, 1, 0), (3, 2, 1, 1), (3, 2, 1, 2)]
 
 
 def random_cfg(rng):
@@ -562,7 +661,8 @@ def random_strategy(rng, cfg):
     return S.RandomWalk(rng, rng.choice((0.03, 0.1, 0.3, 0.6)))
 
 
-N_RANDOM = {'quick': 3000, 'thorough': 100000}
+N_RANDOM = {'quick': 20000, 'thorough': 100000}
+N_FREE = {'quick': 400, 'thorough': 4000}
 
 
 def plan(tier, seed):
@@ -615,6 +715,16 @@ def run_shard(spec, acc):
         rng = random.Random('c13-%d-%d' % (seed, i))
         cfg = random_cfg(rng)
         if run_one(env, cfg, random_strategy(rng, cfg), acc, 'random') is None:
+            bad[0] += 1
+
+    # -- complement: uncontrolled real threads, real blocking get() -------------
+    for i in range(shard, N_FREE[tier], n):
+        if time.time() - t0 > budget or bad[0] > 20:
+            acc.inconc('free-running rounds stopped early at %d' % i)
+            break
+        rng = random.Random('c13-free-%d-%d' % (seed, i))
+        cfg = random_cfg(rng)
+        if run_one(env, cfg, rng.random(), acc, 'free_running') is None:
             bad[0] += 1
     acc.count('shards_run')
 
